@@ -420,6 +420,7 @@ func c02Stress(r *Run, round int) {
 	}
 	defer c.Close()
 	st := c.VerifStore()
+	c02DebugStore = st
 	nw := 2 + rng.Intn(7)
 	nkeys := 2 + rng.Intn(int(M)*2+6)
 	opsPer := 300 + rng.Intn(1500)
@@ -497,6 +498,66 @@ func c02Stress(r *Run, round int) {
 	}
 }
 
+
+// ---------------------------------------------------------------- (e) cost raise on a hot cache
+
+// c02HotCostRaise: the cache is full and most of it has been read often enough
+// to sit in the protected region (confirmed from the snapshot); then one
+// resident key's cost is raised by more than window + probation can absorb, so
+// eviction has to reach into the protected region. Quiescent invariants after
+// the drain, in particular resident cost <= MaxSize.
+func c02HotCostRaise(r *Run, variant int) {
+	rng := r.Rng(int64(7000 + variant))
+	M := []int64{20, 100, 500}[variant%3]
+	c, err := theine.NewBuilder[int, int64](M).Build()
+	if err != nil {
+		r.Broken("build: %v", err)
+		return
+	}
+	defer c.Close()
+	st := c.VerifStore()
+	n := int(M)
+	for k := 0; k < n; k++ {
+		c.Set(k, int64(k), 1)
+	}
+	c.Wait()
+	// enough reads for every stripe of the lossy buffer to deliver several batches
+	for rep := 0; rep < 6000/n+40; rep++ {
+		for k := 0; k < n; k++ {
+			c.Get(k)
+		}
+	}
+	c.Set(n+1, 1, 1) // a write lets the policy settle region overflow
+	c.Wait()
+	before := st.VerifSnapshot()
+	if len(before.Protected.Entries)*2 < len(before.Map) {
+		r.Inconclusive(1) // the reads did not make the cache hot enough
+		return
+	}
+	// raise the cost of a protected key by more than window + probation hold
+	target := before.Protected.Entries[rng.Intn(len(before.Protected.Entries))].Key
+	spare := before.Window.Len + before.Probation.Len
+	raiseTo := spare + 2 + rng.Int63n(M-spare-2)
+	if raiseTo > M {
+		raiseTo = M
+	}
+	ok := c.Set(target, -1, raiseTo)
+	c.Wait()
+	sn := st.VerifSnapshot()
+	for _, is := range checkQuiescent(sn, c.EstimatedSize(), true) {
+		key := is.Key
+		if key == "resident-cost-over-maxsize" || key == "policy-total-over-maxsize" {
+			key += "/after-cost-raise-on-hot-cache"
+		}
+		r.Violate(key, fmt.Sprintf("hot cache (MaxSize %d, %d of %d entries protected), cost of key %d raised from 1 to %d (window+probation held %d), Set returned %v: %s", M, len(before.Protected.Entries), len(before.Map), target, raiseTo, spare, ok, is.What),
+			map[string]any{"maxsize": M, "raised_to": raiseTo, "before": snapSummary(before), "after": snapSummary(sn)})
+	}
+	r.Eval(1)
+	r.Count("hot_cost_raise_cases", 1)
+	r.Count("hot_cost_raise_evicted_from_protected", int64(len(before.Protected.Entries)-len(sn.Protected.Entries)))
+	r.Distinct(fmt.Sprintf("hot-cost-raise/M%d/to%d", M, raiseTo*8/M))
+}
+
 // ---------------------------------------------------------------- (d) in flight
 
 func c02InFlight(r *Run, variant int) {
@@ -566,7 +627,34 @@ func c02InFlight(r *Run, variant int) {
 	r.Distinct(fmt.Sprintf("inflight/K%d", K))
 }
 
+// c02StressDebug re-runs one stress round (args round=N reps=K) and, if its writers stop
+// making progress, prints the policy's sizes read without the lock (diagnosis aid).
+func c02StressDebug(r *Run) {
+	round := mustAtoi(r.Args["round"], 2002)
+	reps := mustAtoi(r.Args["reps"], 50)
+	for i := 0; i < reps; i++ {
+		done := make(chan struct{})
+		go func() { c02Stress(r, round); close(done) }()
+		select {
+		case <-done:
+		case <-time.After(20 * time.Second):
+			fmt.Printf("rep %d: stress round %d stopped making progress\n", i, round)
+			if c02DebugStore != nil {
+				fmt.Printf("policy (read without lock): %v\n", c02DebugStore.VerifPolicyPeekUnlocked())
+			}
+			return
+		}
+	}
+	fmt.Printf("%d repetitions of round %d completed\n", reps, round)
+}
+
+var c02DebugStore *internal.Store[int, int64]
+
 func runC02(r *Run) {
+	if r.Args["debug"] != "" {
+		c02StressDebug(r)
+		return
+	}
 	r.Rule("cases: phase-scheduler scripts (ops parked at H1 after their map phase, event sends released in a chosen order with tick / time-jump / read-burst placed between), H2 expiry-recheck scenarios, concurrent stress rounds with barriers, stalled-maintenance in-flight rounds. " +
 		"Non-trivial = a script run in which at least one event overtook another client's event (distinct by script+release order+action placement), an H2 run that reached the re-check window, a stress round that produced removals, an in-flight round that parked all writers")
 	r.Assume("entry pool off (the property claims exact accounting for the default configuration)",
@@ -581,6 +669,10 @@ func runC02(r *Run) {
 	nStress := r.Pick(4, 120)
 	for i := 0; i < nStress; i++ {
 		c02Stress(r, r.Shard*1000+i)
+	}
+	nHot := r.Pick(3, 24)
+	for i := 0; i < nHot; i++ {
+		c02HotCostRaise(r, r.Shard*nHot+i)
 	}
 	nIF := r.Pick(1, 5)
 	for i := 0; i < nIF; i++ {
